@@ -127,6 +127,30 @@ CLAIMED.update({
         ref="DESIGN.md#c07"),
 })
 
+CLAIMED.update({
+    "C09": dict(
+        text="integrate_angular_coordinates, radial_component_splines, spherical_average, interpolate (value, radial, spherical and Cartesian derivatives) and MolGrid.interpolate are executed on real AtomGrids "
+             "(uniform and mixed degrees, a node at r = 0, symbolic radii/centre) with a symbolic function value at every grid point and CubicSpline replaced by a recording stub: the angular integral is "
+             "sum_k f_k omega_k on every shell (regenerated sphere at r = 0) and re-weights to grid.integrate; every spline node is the projection sum_k f_k Y_lm(k) omega_k with the truncation rule on coarser "
+             "shells; the interpolant is sum_lm S_lm(r) Y_lm(theta, phi) at a symbolic point, its derivatives follow the chain rule; the molecular interpolant is the sum of atomic interpolants of w_A f.",
+        note="exact recovery of band-limited functions (needs C02 and SciPy's spline solver) is outside; the angular-derivative routine is an uninterpreted stub; a cross-instance history (rotation seeds) is a concrete run",
+        ref="DESIGN.md#c09"),
+    "C15": dict(
+        text="The transformation algebra of ode.py is executed with uninterpreted coefficient functions, right-hand side, transform r(x) (with first to third derivative) and solution Y: "
+             "sum_k a_k d^k/dx^k Y(r(x)) == sum_j b_j Y^(j) for orders 1-3 (oracle: symbolic differentiation through uninterpreted functions); both drivers hand SciPy the explicit system "
+             "(y_1, .., (f - sum b_j y_j)/b_K), the prescribed boundary / initial data mapped by the chain rule and the mesh r(x); the returned callable maps values and derivatives back "
+             "(also after in-place refills of its argument); the caller's initial data stay intact.",
+        note="solve_bvp / solve_ivp / scipy.linalg.solve / sympy.bell are stubs (capturing, exact 2x2 solve, Bell recurrence); convergence and accuracy of the integrators are outside",
+        ref="DESIGN.md#c15"),
+    "C16": dict(
+        text="_solve_poisson_bvp/ivp_atomgrid are executed on a duck-typed atomic grid with uninterpreted harmonic components: for every (l,m) the captured problem is u_rr - l(l+1)/r^2 u = -4 pi r rho_lm with "
+             "u(0)=0, u(inf)=Q/Y_00 delta_l0 (resp. the IVP form with its initial data), mesh and options merged without touching the caller's dict; the closure recombines sum (u_lm/r) Y_lm; the molecular helper "
+             "feeds atom A with (w_A rho) on its segment and sums; interpolate_laplacian = sum (S_rr + 2 S_r/r - l(l+1)S/r^2) Y_lm; solve_poisson_robust: residual = rho - sum core densities (identically 0 on the core "
+             "model) and total = sum_A analytic core potential of atom A + potential of the residual.",
+        note="ODE drivers, splines, Coulomb routine and parameter loader are capturing stubs; accuracy statements and the NNLS split are outside; the spline truncation rule itself is C09",
+        ref="DESIGN.md#c16"),
+})
+
 NOT_APPLICABLE = {
     "C02": "no symbolic input: validating 450 shipped data files against harmonics up to degree 325 is floating-point enumeration of concrete runs, outside solver-based checking and outside solver reach (the table/lookup half is decided in C12)",
 }
